@@ -21,7 +21,8 @@ CHECKS = {'C01': {'level': 'exploration',
                  'fields); string columns may use a "set or append" merge that returns a sub-slice of its delta | zigzag histories (since fix f30): '
                  'merge into a row, write the same column of a row in another block, come back to the first row (merge, then perhaps a put) on a '
                  'column whose merge changes the length; the f15 exclusion is NOT applied in this check (it has no indexes, triggers, loggers or '
-                 'replicas)',
+                 'replicas) | since round 7: DropColumn of a value column and its later re-creation under the same name (nothing of the former '
+                 'values may show), dropped index names that come back on another column / with another rule',
          'assumptions': ["values are in the documented domain (strings <= 65535 bytes; SetAny/SetMany values have the column's Go type)",
                          'writes target rows that are live when issued (writes to dead offsets are outside the property)',
                          'histories are bounded: <= 3 blocks (offsets < 49152), ~30 actions, <= 12 steps per transaction'],
@@ -61,7 +62,8 @@ CHECKS = {'C01': {'level': 'exploration',
                  'WATCHDOG-VIOLATION line: with one goroutine at work that is a lock which is never released); callbacks of operations on EXISTING '
                  'rows may fail too (the call reports the error, the stores stay buffered and commit); the harness record codec has an optional '
                  'field that its decoder leaves alone when absent (like encoding/json with omitted fields); string columns may use a "set or append" '
-                 'merge that returns a sub-slice of its delta',
+                 'merge that returns a sub-slice of its delta | since round 7: DropColumn of a value column and its later re-creation under the same '
+                 'name (nothing of the former values may show), dropped index names that come back on another column / with another rule',
          'assumptions': ['in-flight observation happens from the same goroutine between two steps of the body (no latch is held there)',
                          'generator exclusions driven by known findings are counted in coverage.excluded_by_known_finding'],
          'tests': [{'run': '^TestC02$',
@@ -94,7 +96,8 @@ CHECKS = {'C01': {'level': 'exploration',
                  'the process with a WATCHDOG-VIOLATION line: with one goroutine at work that is a lock which is never released); callbacks of '
                  'operations on EXISTING rows may fail too (the call reports the error, the stores stay buffered and commit); the harness record '
                  'codec has an optional field that its decoder leaves alone when absent (like encoding/json with omitted fields); string columns may '
-                 'use a "set or append" merge that returns a sub-slice of its delta',
+                 'use a "set or append" merge that returns a sub-slice of its delta | since round 7: a dropped index name may come back on another '
+                 'column / with another rule',
          'assumptions': ["index predicates decode the value with the column's own width (Reader.Int on an int16 column is zero-extended by design)",
                          'quiescent checks only (no transaction is committing while an index is read)'],
          'tests': [{'run': '^TestC03$',
@@ -184,7 +187,8 @@ CHECKS = {'C01': {'level': 'exploration',
                  'makes no progress for 300 s ends the process with a WATCHDOG-VIOLATION line: with one goroutine at work that is a lock which is '
                  'never released); callbacks of operations on EXISTING rows may fail too (the call reports the error, the stores stay buffered and '
                  'commit); the harness record codec has an optional field that its decoder leaves alone when absent (like encoding/json with omitted '
-                 'fields); string columns may use a "set or append" merge that returns a sub-slice of its delta',
+                 'fields); string columns may use a "set or append" merge that returns a sub-slice of its delta | since round 7: a dropped index '
+                 'name may come back on another column / with another rule',
          'assumptions': ['the replica has the same schema (columns created at the same history points) and the same index definitions',
                          'comparison happens when the primary is quiescent'],
          'tests': [{'run': '^TestC06$',
@@ -223,7 +227,9 @@ CHECKS = {'C01': {'level': 'exploration',
                  'makes no progress for 300 s ends the process with a WATCHDOG-VIOLATION line: with one goroutine at work that is a lock which is '
                  'never released); callbacks of operations on EXISTING rows may fail too (the call reports the error, the stores stay buffered and '
                  'commit); the harness record codec has an optional field that its decoder leaves alone when absent (like encoding/json with omitted '
-                 'fields); string columns may use a "set or append" merge that returns a sub-slice of its delta',
+                 'fields); string columns may use a "set or append" merge that returns a sub-slice of its delta | since round 7: DropColumn of a '
+                 'value column and its later re-creation under the same name (nothing of the former values may show), dropped index names that come '
+                 'back on another column / with another rule',
          'assumptions': ['the restoring collection has the same columns (names, kinds, merge functions) as the original',
                          'vacuum is parked (24h interval), so the expire column is an ordinary int64 column here'],
          'tests': [{'run': '^TestC07$',
@@ -416,7 +422,10 @@ CHECKS = {'C01': {'level': 'exploration',
                  'step that makes no progress for 300 s ends the process with a WATCHDOG-VIOLATION line: with one goroutine at work that is a lock '
                  'which is never released); callbacks of operations on EXISTING rows may fail too (the call reports the error, the stores stay '
                  'buffered and commit); the harness record codec has an optional field that its decoder leaves alone when absent (like encoding/json '
-                 'with omitted fields); string columns may use a "set or append" merge that returns a sub-slice of its delta',
+                 'with omitted fields); string columns may use a "set or append" merge that returns a sub-slice of its delta | since round 7: the '
+                 'callback of an InsertKey may re-key the new row (SetKey) before InsertKey queues its own key - the row ends up with the InsertKey '
+                 'key, the other one must not resolve; a second key column is attempted (refused) and whatever the attempt registered is dropped '
+                 'again',
          'assumptions': ['existence is judged against the committed table when the operation is issued (documented mechanism)',
                          'the key column is written only through InsertKey/UpsertKey/SetKey (SetAny on the key column bypasses the duplicate test '
                          'and is outside the property)'],
@@ -522,7 +531,10 @@ CHECKS = {'C01': {'level': 'exploration',
                  'use a "set or append" merge that returns a sub-slice of its delta | since round 6: an archive of older commits is written and read '
                  'back in-process (Log.Append / Log.Range) between transactions: later IDs must still be fresh | TestC15Vacuum: rows with a short '
                  'time-to-live in one or two blocks; once the cleanup has removed them, the recorded stream replayed on a follower without a cleanup '
-                 'of its own must reproduce the primary (what the cleanup commits is emitted), and the ID invariants hold over the whole stream',
+                 'of its own must reproduce the primary (what the cleanup commits is emitted), and the ID invariants hold over the whole stream | '
+                 'since round 7: a transaction whose only write goes to a column that is dropped before it commits emits nothing | '
+                 'TestC15ManyCommits: 2..3 blocks opened by ONE bulk transaction, then 600..3000 single-row transactions, most of them into one '
+                 'block: all IDs distinct, per block increasing, exactly one commit each',
          'assumptions': ['record order at the logger is apply order (Append is called under the block latch)'],
          'tests': [{'run': '^TestC15$',
                     'checks': {'quick': 250, 'thorough': 2500},
@@ -551,7 +563,12 @@ CHECKS = {'C01': {'level': 'exploration',
                    {'run': '^TestC15Vacuum$',
                     'checks': {'quick': 40, 'thorough': 600},
                     'shards': {'quick': 1, 'thorough': 2},
-                    'timeout': {'quick': 900, 'thorough': 3400}}]},
+                    'timeout': {'quick': 900, 'thorough': 3400}},
+                   {'run': '^TestC15ManyCommits$',
+                    'checks': {'quick': 30, 'thorough': 600},
+                    'shards': {'quick': 1, 'thorough': 2},
+                    'timeout': {'quick': 900, 'thorough': 3400},
+                    'env': {'GOMAXPROCS': 1}}]},
  'C16': {'level': 'exploration',
          'rule': 'model-based stateful histories over a string column whose values come from a 5-value alphabet with forced duplicates (incl. the '
                  'empty string) and default / order-sensitive merge functions: inserts, overwrites (also to an existing value), merges, deletes, '
@@ -599,7 +616,8 @@ CHECKS = {'C01': {'level': 'exploration',
                  'short TTL is taken away again with SetTTL(0) / TTL().Set(0) must never expire | TestC17PooledClock: K nested read-only queries put '
                  'K pooled transaction objects into use, 1.3-1.7 s later K nested inserts give their rows a TTL slightly longer than that idle '
                  'period: each row must be present while "call time + ttl" is more than a second away | since round 6: an hour-long TTL shortened to '
-                 'a few milliseconds with a NEGATIVE Extend must expire',
+                 'a few milliseconds with a NEGATIVE Extend must expire | TestC17SlowVacuum (since round 7): cleanup interval 1.5 s, rows with a TTL '
+                 'of 2.9 s must survive the pass that looks at them 1.4 s before their deadline',
          'assumptions': ['wall-clock property: margins (1 s safety guard band, 10 s liveness bound = >200x the expected latency) instead of a clock '
                          'hook; a run on a machine stalled for more than the margins would be inconclusive, never a violation of safety',
                          'timing is not reproducible bit-for-bit; the case (rows, TTLs, interval, mode) is'],
@@ -611,7 +629,8 @@ CHECKS = {'C01': {'level': 'exploration',
                     'checks': {'quick': 3, 'thorough': 20},
                     'shards': {'quick': 1, 'thorough': 2},
                     'timeout': {'quick': 900, 'thorough': 3400},
-                    'shrinktime': '5s'}]},
+                    'shrinktime': '5s'},
+                   {'run': '^TestC17SlowVacuum$', 'timeout': {'quick': 900, 'thorough': 3400}}]},
  'C18': {'level': 'exploration',
          'rule': 'generated concurrent programs (rapid): 4..16 goroutines drawn from 11 worker kinds - transactions growing the collection across '
                  'blocks (with bulk deletes and reuse), point reads of every column kind, filtered iteration (index / typed / value filters), '
@@ -631,7 +650,10 @@ CHECKS = {'C01': {'level': 'exploration',
                  'rolled-back inserting transactions in the insert/delete worker and in a targeted workload | race attribution since round 5: a '
                  'listed finding may restrict the PARTNER access (other=<regex>); reports whose partner is an Apply or a Grow are never attributed '
                  'to the growth-vs-load finding | since round 6: record merges committed into different blocks at the same time (random programs and '
-                 'a targeted workload)',
+                 'a targeted workload) | since round 7: TestC18ManyBlocks (plain binary): a collection of 130 blocks - blocks b and b+128 share a '
+                 'latch shard - is built, indexed, written by one transaction on two blocks of one shard, snapshotted; under a 90 s watchdog | '
+                 'targeted workload: a commit.Channel change stream consumed by a goroutine that replays into a replica while transactions alternate '
+                 'between two blocks',
          'assumptions': ['the race detector only reports races that actually execute in the run',
                          "which listed finding a report belongs to is decided by the unsynchronised mutator's function name (known_findings.txt "
                          'race=<regex>)'],
@@ -646,7 +668,8 @@ CHECKS = {'C01': {'level': 'exploration',
                     'race': True,
                     'env': {'VERIF_C18_MS': {'quick': 500, 'thorough': 2000}},
                     'timeout': {'quick': 900, 'thorough': 3400},
-                    'par': 4}]},
+                    'par': 4},
+                   {'run': '^TestC18ManyBlocks$', 'timeout': {'quick': 900, 'thorough': 3400}}]},
  'C19': {'level': 'exploration',
          'rule': 'model-based stateful histories on numeric and string columns (all widths, additive / order-sensitive / same-length merge '
                  'functions): transactions with puts, merges, several writes to one row, own-insert updates, deletes, rollbacks, multi-block '
